@@ -10,5 +10,6 @@ CONSTANTS
   MaxHist = 1000
   AsFound_VarListCached = TRUE
   AsFound_TraceBreaksFunctions = TRUE
+  Hyp_IdResetPerModel = FALSE
 POSTCONDITION AllConsumed
 CHECK_DEADLOCK FALSE
